@@ -47,6 +47,9 @@ type Cfg struct {
 	CompatNames            bool // with NameStress: also names that need the compatible_names option (NewX, XArgs, XResult)
 	WideStructs            bool // some structs have 9-36 fields (more than one bookkeeping word of required-field bits)
 	ArgDefaults            bool // function arguments may carry default values (the grammar allows it)
+	EnumAsInt              bool // i32 / i64 values may be written as enum members (the member's number)
+	SameConstNames         bool // constants of different files (in different Go packages) may share a name
+	AliasNS                bool // go namespaces that end in the same element in several files, or in the name of a library package (import aliases)
 	SameNames              bool // files may reuse each other's global names (separate scopes: a.ID and b.ID differ); not for checks that put files into one Go package
 	NoZeroThrowsID         bool // no throws entry has id 0 (it would share the id of `success` in the result struct)
 }
@@ -67,7 +70,7 @@ func GoSafe() Cfg {
 func Full() Cfg {
 	return Cfg{MaxFiles: 4, MaxDefs: 4, Annotations: true, NastyLits: true, CppStuff: true, Consts: true, Defaults: true,
 		Services: true, NegIDs: true, ExpDoubles: true, HexIDs: true, IntSpell: true, SameBase: true, EnumViaTypedef: true,
-		EnumViaTypedefFar: true, WideStructs: true, ArgDefaults: true, EmptyEnums: true, Comments: true, SelfRef: true, MapStructKey: true, RawCtl: true, UnionDefaults: true}
+		EnumViaTypedefFar: true, WideStructs: true, ArgDefaults: true, EmptyEnums: true, Comments: true, SelfRef: true, MapStructKey: true, RawCtl: true, UnionDefaults: true, AliasNS: true, EnumAsInt: true}
 }
 
 type gen struct {
@@ -129,14 +132,18 @@ var helperNames = map[string]bool{"Client_": true, "_unknownFields": true, "BLen
 // are separate scopes, so `a.ID` and `b.ID` are different things; the name must
 // be free in the current file and in every file that is referred to by the same
 // prefix as the current one.
-func (g *gen) reuseGlobal() string {
-	if !g.cfg.SameNames || g.file == nil || len(g.prog.Files) < 2 || !g.p(1, 3, "samename") {
+func (g *gen) reuseGlobal(forConst bool) string {
+	constsOnly := !g.cfg.SameNames
+	if constsOnly && !(g.cfg.SameConstNames && forConst) {
+		return ""
+	}
+	if g.file == nil || len(g.prog.Files) < 2 || !g.p(1, 3, "samename") {
 		return ""
 	}
 	taken := map[string]bool{}
 	var cands []string
 	for _, f := range g.prog.Files {
-		if f == g.file || f.Prefix() == g.file.Prefix() {
+		if f == g.file || f.Prefix() == g.file.Prefix() || f.GoPackage() == g.file.GoPackage() {
 			for _, d := range f.Defs {
 				taken[d.Name] = true
 			}
@@ -148,6 +155,9 @@ func (g *gen) reuseGlobal() string {
 			continue
 		}
 		for _, d := range f.Defs {
+			if constsOnly && d.Kind != KConst {
+				continue
+			}
 			if !taken[d.Name] && !seen[d.Name] {
 				seen[d.Name] = true
 				cands = append(cands, d.Name)
@@ -161,7 +171,7 @@ func (g *gen) reuseGlobal() string {
 }
 
 func (g *gen) globalName(pool []string, prefix string) string {
-	if n := g.reuseGlobal(); n != "" {
+	if n := g.reuseGlobal(prefix == "C"); n != "" {
 		return n
 	}
 	return g.stressName(pool, g.globalScope(), prefix)
@@ -284,6 +294,11 @@ func (g *gen) genFile(f *File) {
 		ns := fmt.Sprintf("p%d", f.Index)
 		if g.p(1, 3, "deepns") {
 			ns += ".sub.pkg" + strconv.Itoa(f.Index)
+		} else if cfg.AliasNS && g.p(1, 4, "aliasns") {
+			// packages that a Go file cannot import under their own name: several
+			// files whose package path ends in the same element, or in the name
+			// of a library the generated code imports anyway
+			ns += "." + rapid.SampledFrom([]string{"shared", "shared", "shared", "context", "fmt", "strings", "bytes", "thrift", "reflect", "errors"}).Draw(g.t, "nslast")
 		}
 		// files may share a Go package only with the next file (generated just
 		// before this one): packages then cover consecutive files and includes,
@@ -814,6 +829,21 @@ func (g *gen) genValue(t *Type, depth int) *Value {
 			return &Value{Kind: VInt, Int: 0}
 		}
 	case "byte", "i16", "i32", "i64":
+		if g.cfg.EnumAsInt && (cat == "i32" || cat == "i64") && g.p(1, 10, "enumasint") {
+			// an enum member written where an integer is expected stands for its number
+			es := g.visible(func(d *Def) bool { return d.Kind == KEnum && len(d.Values) > 0 })
+			if len(es) > 0 {
+				e := rapid.SampledFrom(es).Draw(g.t, "intenum")
+				m := rapid.SampledFrom(e.Values).Draw(g.t, "intmember")
+				v := &Value{Kind: VIdent, RefEnum: e, RefVal: m.Name}
+				if e.File == g.file {
+					v.Ident = e.Name + "." + m.Name
+				} else {
+					v.Ident = e.File.Prefix() + "." + e.Name + "." + m.Name
+				}
+				return v
+			}
+		}
 		lo, hi := intRange(cat)
 		return g.genInt(lo, hi)
 	case "double":
@@ -1105,4 +1135,31 @@ func (p *Program) Describe() string {
 			cnt[KConst], cnt[KTypedef], cnt[KEnum], cnt[KStruct], cnt[KUnion], cnt[KException], cnt[KService]))
 	}
 	return strings.Join(parts, " ")
+}
+
+// AddEnumNumberConsts appends, to some files, i32 constants whose value is
+// written as a member of an enum of an included file (`const i32 C = inc.E.M`):
+// often the only thing the file takes from that include.
+func AddEnumNumberConsts(t *rapid.T, p *Program) int {
+	n := 0
+	for _, f := range p.Files {
+		for _, inc := range f.Includes {
+			var es []*Def
+			for _, d := range inc.Defs {
+				if d.Kind == KEnum && len(d.Values) > 0 {
+					es = append(es, d)
+				}
+			}
+			if len(es) == 0 || f.GoPackage() == inc.GoPackage() || rapid.IntRange(0, 2).Draw(t, "enumnumconst") != 0 {
+				continue
+			}
+			e := rapid.SampledFrom(es).Draw(t, "enumnum_enum")
+			m := rapid.SampledFrom(e.Values).Draw(t, "enumnum_member")
+			n++
+			d := &Def{Kind: KConst, Name: fmt.Sprintf("Cenumnum%d_%d", f.Index, n), File: f, Type: &Type{Base: "i32"},
+				Value: &Value{Kind: VIdent, Ident: inc.Prefix() + "." + e.Name + "." + m.Name, RefEnum: e, RefVal: m.Name}}
+			f.Defs = append(f.Defs, d)
+		}
+	}
+	return n
 }
